@@ -4,7 +4,7 @@ import warnings; warnings.filterwarnings("ignore")
 import sys, os, json, random, math, io, contextlib, subprocess, itertools
 from fractions import Fraction as Fr
 import numpy as np
-from ocommon import fresh, quiet_solve, pdict, edict, eval_p, eval_e, dot, SC
+from ocommon import fresh, quiet_solve, pdict, edict, eval_p, eval_e, dot, SC, random_params, CLASSES
 
 HERE = os.path.dirname(os.path.abspath(__file__))
 
@@ -252,6 +252,7 @@ def c04_counts(n, seed, procs):
     for it in range(n):
         rnd = random.Random(seed * 2741 + it)
         cname, kw = rnd.choice([c for c in ORDER_CLASSES if c[0] in glue and c[0] != "SmoothStronglyConvexQuadraticFunction"])
+        kw = random_params(rnd, cname)          # every admissible parameter tuple, edge values included (mu = 0, beta = 0, mu = L, ...)
         pep = PEP(); cls = getattr(PF, cname, None) or getattr(PO, cname)
         f = pep.declare_function(cls, **kw)
         pts = []
@@ -267,7 +268,7 @@ def c04_counts(n, seed, procs):
         if cname in ("ConvexQGFunction", "RsiEbFunction") and not f.list_of_stationary_points: continue
         allp = list(f.list_of_points); stat = list(f.list_of_stationary_points)
         f.set_class_constraints()
-        desc = dict(seed=seed, it=it, cls=cname, calls=seq, samples=len(allp), stationary=len(stat))
+        desc = dict(seed=seed, it=it, cls=cname, params=kw, calls=seq, samples=len(allp), stationary=len(stat))
         distinct.add((cname, tuple(seq)))
         names = [c.get_name() or "" for c in f.list_of_class_constraints]
         for g in glue[cname]["glue"]:
@@ -295,6 +296,7 @@ def c04_orders(n, seed, procs):
     for it in range(n):
         rnd = random.Random(seed * 6151 + it)
         cname, kw = rnd.choice(ORDER_CLASSES)
+        kw = random_params(rnd, cname)
         ns = rnd.randint(1, 4)
         base = list(range(ns)) + (["S"] if rnd.random() < .7 else [])
         o1 = base[:]; rnd.shuffle(o1)
@@ -337,7 +339,12 @@ def c15_blocks(n, seed, procs):
         rnd = random.Random(seed * 3571 + it)
         pep = PEP()
         d = rnd.randint(1, 4)
-        part = pep.declare_block_partition(d=d)
+        direct = rnd.random() < .5
+        if direct:
+            from PEPit import BlockPartition
+            part = BlockPartition(d=d)           # the documented direct constructor
+        else:
+            part = pep.declare_block_partition(d=d)
         leaves = [Point() for _ in range(rnd.randint(1, 3))]
         pts = list(leaves)
         for _ in range(rnd.randint(0, 2)):
@@ -383,6 +390,15 @@ def c15_blocks(n, seed, procs):
             got_set = {str(sorted(edict(c.expression).items())) + c.equality_or_inequality for c in part.list_of_constraints[before:]}
             missing = set(expected()) - got_set
             if missing: bad("after decomposing one more point and generating again, %d orthogonality relation(s) between old and new points are missing" % len(missing))
+        if rnd.random() < .4:           # what a solve sends: every orthogonality relation of every partition, however it was created
+            import corr_world as cw
+            pep.set_performance_metric(leaves[0] ** 2)
+            w = cw.ScriptedWrapper()
+            with contextlib.redirect_stdout(io.StringIO()):
+                pep._solve_with_wrapper(w, verbose=0)
+            sent = {str(sorted(edict(c.expression).items())) + c.equality_or_inequality for k_, c in w.sent if k_ == "C"}
+            missing = set(expected()) - sent
+            if missing: bad("%d orthogonality relation(s) of a partition created with %s do not reach the solver" % (len(missing), "BlockPartition(d=%d)" % d if direct else "declare_block_partition"))
         distinct.add((d, len(chosen), ntmp, tuple(desc["decomposed"])))
         if it < 2: samples.append(desc)
         if len(fails) > 5: break
@@ -396,11 +412,21 @@ def build_model(rnd, kind=None):
     from PEPit import PEP, Point, Expression
     import PEPit.functions as PF, PEPit.operators as PO
     from PEPit.primitive_steps import proximal_step
-    kinds = ["gd_ssc", "gd_sc", "pgd", "ppa_op", "gd_quad", "lmi_user", "two_metrics", "blocks", "qg", "linop", "composite", "lmi_function", "lmi_two_sources", "lmi_nonsym"]
+    kinds = ["gd_ssc", "gd_sc", "pgd", "ppa_op", "gd_quad", "lmi_user", "two_metrics", "blocks", "qg", "linop", "composite", "lmi_function", "lmi_two_sources", "lmi_nonsym", "dup_constraint"]
     kind = kind or rnd.choice(kinds)
     pep = PEP(); info = dict(kind=kind)
     mu, L = rnd.choice([0.1, 0.25, 0.5]), rnd.choice([1.0, 2.0]); gamma = rnd.choice([0.5, 1.0, 1.5]) / L; n = rnd.randint(1, 2)
     info.update(mu=mu, L=L, gamma=gamma, n=n)
+    if kind == "dup_constraint":
+        # the same Constraint object (with a constant term) registered on the PEP and on a function: it is declared twice
+        f = pep.declare_function(PF.SmoothStronglyConvexFunction, mu=mu, L=L)
+        xs = f.stationary_point(); x0 = pep.set_initial_point()
+        c = ((x0 - xs) ** 2 <= rnd.choice([1, 2, 0.5]))
+        pep.set_initial_condition(c); f.add_constraint(c)
+        x = x0
+        for _ in range(n): x = x - gamma * f.gradient(x)
+        pep.set_performance_metric((x - xs) ** 2)
+        return pep, info
     if kind in ("lmi_function", "lmi_two_sources", "lmi_nonsym"):
         # one gradient step; the metric is an auxiliary expression t tied to ||x1 - xs||^2 through LMIs with a constant entry
         f = pep.declare_function(PF.SmoothStronglyConvexFunction, mu=mu, L=L)
@@ -414,7 +440,8 @@ def build_model(rnd, kind=None):
             pep.add_psd_matrix([[a, t], [t, 1.0 + 0 * a]]); f.add_psd_matrix([[t + 1, u], [u, 1.0 + 0 * a]]); pep.set_performance_metric(u)
         else:
             u = Expression()
-            pep.add_psd_matrix([[a, t], [u, 1.0 + 0 * a]]); pep.add_constraint(t <= 2); pep.set_performance_metric(t)
+            # the entry below the diagonal is written differently AND constrained on its own: M symmetric forces t == u <= 1/4
+            pep.add_psd_matrix([[a, t], [u, 1.0 + 0 * a]]); pep.add_constraint(t <= 2); pep.add_constraint(u <= 0.25); pep.set_performance_metric(t)
         return pep, info
     if kind in ("gd_ssc", "gd_sc", "two_metrics", "lmi_user", "gd_quad", "qg", "composite"):
         if kind == "gd_sc": f = pep.declare_function(PF.SmoothConvexFunction, L=L)
@@ -559,6 +586,19 @@ def scaled_model(rnd):
     return pep, dict(kind="subgradient_scaled", M=M, n=nst)
 
 
+def large_model(rnd):
+    """a model whose worst-case value is far above 1 (large initial radius): absolute vs relative tolerances differ"""
+    from PEPit import PEP
+    import PEPit.functions as PF
+    R2 = rnd.choice([25., 100., 1e4]); mu, L = rnd.choice([0.1, 0.5]), 1.0; nst = rnd.randint(1, 2); gamma = rnd.choice([1.0, 1.5]) / L
+    pep = PEP(); f = pep.declare_function(PF.SmoothStronglyConvexFunction, mu=mu, L=L)
+    xs = f.stationary_point(); x0 = pep.set_initial_point(); pep.set_initial_condition((x0 - xs) ** 2 <= R2)
+    x = x0
+    for _ in range(nst): x = x - gamma * f.gradient(x)
+    pep.set_performance_metric((x - xs) ** 2)
+    return pep, dict(kind="gd_large_radius", R2=R2, mu=mu, L=L, gamma=gamma, n=nst)
+
+
 def c14_dimred(n, seed, procs):
     """real solves with and without a dimension-reduction heuristic on the same model (several tolerances,
     incl. tolerance < regularisation, well and badly scaled models): same dual bound and a valid certificate
@@ -568,7 +608,8 @@ def c14_dimred(n, seed, procs):
     for it in range(n):
         rnd = random.Random(seed * 6337 + it)
         st = rnd.getstate()
-        mk = (lambda r: scaled_model(r)) if rnd.random() < .35 else (lambda r: build_model(r))
+        u_ = rnd.random()
+        mk = (lambda r: scaled_model(r)) if u_ < .3 else (lambda r: large_model(r)) if u_ < .5 else (lambda r: build_model(r))
         st = rnd.getstate()
         pep0, info = mk(rnd)
         t0 = quiet_solve(pep0, return_primal_or_dual="dual"); ev += 1
@@ -610,6 +651,29 @@ def c14_dimred(n, seed, procs):
         if heur == "trace" and np.trace(G) > np.trace(G0) + 1e-5 * max(1.0, abs(np.trace(G0))):
             fails.append(dict(what="trace heuristic increased the trace: %.8g -> %.8g" % (np.trace(G0), np.trace(G)), oracle="c14_dimred", input=desc, tags=["c14"]))
         if len(samples) < 2: samples.append(dict(desc, dual=t0, primal=prim, worst_constraint=worst, trace_before=float(np.trace(G0)), trace_after=float(np.trace(G))))
+        if rnd.random() < .5:
+            # the solved model is extended (one more sample: new leaf point and new leaf expression, created AFTER the
+            # objective of the first solve) and solved again with a heuristic: the optimum is unchanged (one more sample of an
+            # interpolable class restricts nothing) and the primal value must still be within tol of it
+            from PEPit import Function
+            cand = [f_ for f_ in Function.list_of_functions if f_.get_is_leaf() and f_.list_of_points and type(f_).__name__ not in ("LinearOperator", "SymmetricLinearOperator", "SkewSymmetricLinearOperator", "BlockSmoothConvexFunction", "SmoothStronglyConvexQuadraticFunction")]
+            if cand:
+                f_ = cand[0]; x_, g_, _ = f_.list_of_points[-1]
+                f_.oracle(x_ - 0.5 * g_)
+                desc2 = dict(desc, extended="one more sample, then solved again with " + heur)
+                try:
+                    with contextlib.redirect_stdout(io.StringIO()):
+                        t2 = pep.solve(verbose=0, solver="CLARABEL", dimension_reduction_heuristic=heur, tol_dimension_reduction=tol, eig_regularization=reg, return_primal_or_dual="dual")
+                except Exception as ex:
+                    t2 = None
+                    if type(ex).__name__ != "SolverError":
+                        fails.append(dict(what="solve of the extended model with %s raises %s" % (heur, type(ex).__name__), oracle="c14_dimred", input=desc2, tags=["c14"]))
+                if t2 is not None:
+                    ev += 1
+                    prim2 = float(pep.objective.eval())
+                    if abs(t2 - t0) <= 1e-4 * sc and prim2 < t0 - tol - (2e-4 if heur.startswith("logdet") else 2e-5) * sc:
+                        fails.append(dict(what="after extending the solved model and solving again, the primal value %.9g is more than tol=%g below the optimum %.9g" % (prim2, tol, t0),
+                                          oracle="c14_dimred", input=desc2, observed=t0 - prim2, expected="<= %g" % tol, tags=["c14"]))
         if len(fails) > 5: break
     return dict(evaluations=ev, distinct=len(distinct), failures=fails[:5], samples=samples)
 
@@ -844,7 +908,11 @@ def c16_unsolved(n, seed, procs):
         e = (x1 - xs) ** 2; e2 = 2 * v + 1 - e
         c = (e <= 1); ceq = (e2 == 3)
         m = PSDMatrix([[e, v], [v, e2]])
+        zero_w = 0 * v; zero_p = (0 * g) * x0; mu0 = (0.0 / 2) * (x0 - xs) ** 2          # leaves kept with weight exactly 0 (products are not pruned)
+        m_low = PSDMatrix([[Expression(is_leaf=False, decomposition_dict={1: 1.}), Expression(is_leaf=False, decomposition_dict={1: 0.})], [v, Expression(is_leaf=False, decomposition_dict={1: 1.})]])   # the only leaf sits below the diagonal
         objs = [("leaf point", x0, ["eval"]), ("derived point", x1, ["eval"]), ("leaf expression", v, ["eval"]), ("derived expression", e, ["eval"]),
+                ("expression 0 * f(x0)", zero_w, ["eval"]), ("expression (0 * g) * x0", zero_p, ["eval"]), ("expression with parameter 0", mu0, ["eval"]),
+                ("constraint whose expression is 0 * f(x0)", __import__("PEPit").Constraint(expression=zero_w, equality_or_inequality="inequality"), ["eval"]), ("LMI whose only leaf is below the diagonal", m_low, ["eval"]),
                 ("constant-free expression", e2, ["eval"]), ("inequality", c, ["eval", "eval_dual"]), ("equality", ceq, ["eval", "eval_dual"]), ("LMI", m, ["eval", "eval_dual"])]
         mode = rnd.choice(["unsolved", "unbounded", "infeasible"])
         desc = dict(seed=seed, it=it, mode=mode)
